@@ -79,6 +79,9 @@ func (g *Gen) genFunc(fs *FuncSpec) {
 		}
 		vars[fs.Params[k].Name] = CV{v, p.Type()}
 		g.paramVals[fs.Params[k].Name] = CV{v, p.Type()}
+		if g.sortOf(p.Type()) == "Int" && isRefType(p.Type()) {
+			g.addInstTerm("Ref", v.S)
+		}
 		args = append(args, v)
 	}
 	for _, gp := range ghosts {
@@ -117,6 +120,9 @@ func (g *Gen) genFunc(fs *FuncSpec) {
 	asgBy := map[string][]loc{}
 	for _, a := range asg {
 		l := env0.locOf(a)
+		if l.skip {
+			continue
+		}
 		asgBy[l.heap] = append(asgBy[l.heap], l)
 		if strings.HasPrefix(l.heap, "Mh.") { // a map location covers presence and value
 			mv := "Mv." + strings.TrimPrefix(l.heap, "Mh.")
